@@ -205,3 +205,82 @@ Theorem convex_hull_set_ext_lemma : forall g g',
 Proof.
   intros g g' E E' H. unfold convex_hull. rewrite E, E'. rewrite (hull_set_ext_lemma _ _ H). reflexivity.
 Qed.
+
+(* ------------------------------------------------------------------------------------------ *)
+(* Which case occurs is decided by the geometry of the point set *)
+
+Definition all_collinear (ps : list pt) : Prop := forall p q r, In p ps -> In q ps -> In r ps -> cross p q r = 0.
+
+(* two vectors parallel to a non-zero vector are parallel *)
+Lemma par_par dx dy ux uy vx vy :
+  (dx <> 0 \/ dy <> 0) -> dx * uy - dy * ux = 0 -> dx * vy - dy * vx = 0 -> ux * vy - uy * vx = 0.
+Proof.
+  intros Hd Hu Hv.
+  assert (E1 : dx * (ux * vy - uy * vx) = 0) by (replace (dx * (ux * vy - uy * vx)) with (ux * (dx * vy - dy * vx) - vx * (dx * uy - dy * ux)) by ring; rewrite Hu, Hv; ring).
+  assert (E2 : dy * (ux * vy - uy * vx) = 0) by (replace (dy * (ux * vy - uy * vx)) with (uy * (dx * vy - dy * vx) - vy * (dx * uy - dy * ux)) by ring; rewrite Hu, Hv; ring).
+  destruct Hd as [Hd|Hd]; [apply Z.mul_eq_0 in E1|apply Z.mul_eq_0 in E2]; tauto.
+Qed.
+
+Lemma collinear3 a b p q r : a <> b ->
+  cross a b p = 0 -> cross a b q = 0 -> cross a b r = 0 -> cross p q r = 0.
+Proof.
+  intros Hab Hp Hq Hr.
+  destruct a as [ax ay], b as [bx b_y], p as [px py], q as [qx qy], r as [rx ry].
+  unfold cross in *. cbn [fst snd] in *.
+  assert (Hd : bx - ax <> 0 \/ b_y - ay <> 0).
+  { destruct (Z.eq_dec bx ax) as [E1|E1]; [destruct (Z.eq_dec b_y ay) as [E2|E2]|];
+      [subst; exfalso; apply Hab; reflexivity|right; lia|left; lia]. }
+  (* vectors from a *)
+  pose proof (par_par (bx - ax) (b_y - ay) (px - ax) (py - ay) (qx - ax) (qy - ay) Hd) as A.
+  pose proof (par_par (bx - ax) (b_y - ay) (qx - ax) (qy - ay) (rx - ax) (ry - ay) Hd) as B.
+  pose proof (par_par (bx - ax) (b_y - ay) (px - ax) (py - ay) (rx - ax) (ry - ay) Hd) as C.
+  lia.
+Qed.
+
+Lemma on_segment_cross a b p : on_segment a b p = true -> cross a b p = 0.
+Proof. unfold on_segment. rewrite !andb_true_iff. intros [[[[H _] _] _] _]. apply Z.eqb_eq. exact H. Qed.
+
+Lemma convex_ring_turn ring : strictly_convex_ring ring = true ->
+  exists a b c, In a ring /\ In b ring /\ In c ring /\ 0 < cross a b c.
+Proof.
+  unfold strictly_convex_ring. destruct ring as [|v0 [|v1 rest]]; try discriminate.
+  rewrite !andb_true_iff. intros [[[Hlen _] Hst] _].
+  destruct rest as [|v2 rest']; [simpl in Hlen; apply Z.leb_le in Hlen; lia|].
+  change ((v0 :: v1 :: v2 :: rest') ++ [v1]) with (v0 :: v1 :: v2 :: (rest' ++ [v1])) in Hst.
+  rewrite strict_turns_cons3, andb_true_iff in Hst. destruct Hst as [Hst _]. apply Z.ltb_lt in Hst.
+  exists v0, v1, v2. simpl. tauto.
+Qed.
+
+(* two-point line exactly when there are two different points and all points are collinear;
+   polygon exactly when they are not all collinear *)
+Theorem hull_line_iff : forall ps,
+  (exists a b, hull_pts ps = HLine a b) <-> ((exists x y, In x ps /\ In y ps /\ x <> y) /\ all_collinear ps).
+Proof.
+  intros ps. pose proof (hull_cases_lemma ps) as Hc. split.
+  - intros [a [b E]]. rewrite E in Hc. destruct Hc as [Hab [Ia [Ib Hall]]]. split; [exists a, b; auto|].
+    intros p q r Hp Hq Hr. apply (collinear3 a b); auto; apply on_segment_cross, Hall; assumption.
+  - intros [[x [y [Hx [Hy Hxy]]]] Hcol].
+    destruct (hull_pts ps) as [|a|a b|ring|] eqn:E.
+    + subst ps. destruct Hx.
+    + destruct Hc as [_ Hall]. exfalso. apply Hxy. rewrite (Hall x Hx), (Hall y Hy). reflexivity.
+    + exists a, b. reflexivity.
+    + destruct Hc as [Hsc Hincl]. destruct (convex_ring_turn ring Hsc) as [a [b [c [Ia [Ib [Ic Ht]]]]]].
+      rewrite (Hcol a b c) in Ht by (apply Hincl; assumption). lia.
+    + destruct Hc.
+Qed.
+
+Theorem hull_polygon_iff : forall ps, (exists ring, hull_pts ps = HPoly ring) <-> ~ all_collinear ps.
+Proof.
+  intros ps. pose proof (hull_cases_lemma ps) as Hc. split.
+  - intros [ring E] Hcol. rewrite E in Hc. destruct Hc as [Hsc Hincl].
+    destruct (convex_ring_turn ring Hsc) as [a [b [c [Ia [Ib [Ic Ht]]]]]].
+    rewrite (Hcol a b c) in Ht by (apply Hincl; assumption). lia.
+  - intros Hn. destruct (hull_pts ps) as [|a|a b|ring|] eqn:E.
+    + exfalso. apply Hn. subst ps. intros p q r [].
+    + exfalso. apply Hn. destruct Hc as [_ Hall]. intros p q r Hp Hq Hr.
+      rewrite (Hall p Hp), (Hall q Hq). apply cross_aab.
+    + exfalso. apply Hn. destruct Hc as [Hab [_ [_ Hall]]]. intros p q r Hp Hq Hr.
+      apply (collinear3 a b); auto; apply on_segment_cross, Hall; assumption.
+    + exists ring; reflexivity.
+    + destruct Hc.
+Qed.
